@@ -1,4 +1,5 @@
 /- Operation table of the model driver: one import and one `++` entry per ops module. -/
+import Driver.Ops.C06
 import Driver.Ops.C07
 import Driver.Ops.C15
 import Driver.Ops.C17
@@ -6,6 +7,7 @@ namespace ZVD
 
 def allOps : OpTable :=
   [("ping", fun _ => pure "ok pong")]
+  ++ opsC06
   ++ opsC07
   ++ opsC15
   ++ opsC17
